@@ -1,8 +1,8 @@
 (* C08: the reader produces the fields of the independent RFC 4180 specification [rfc_parse]
    (lexer + six-state machine of Model/Csv.v), for EVERY input byte string - here for
-   single-byte separators and comment characters (',' ';' '|' TAB ...) and inputs that do not
-   start with a BOM.  (Multi-byte separators and the BOM are covered by the correspondence
-   check: Coq spec = harness reference reader = implementation on every generated input.) *)
+   single-byte separators and comment characters (',' ';' '|' TAB ...), a leading BOM included.
+   (Multi-byte separators are covered by the correspondence check: Coq spec = harness
+   reference reader = implementation on every generated input.) *)
 From Verif Require Import Lib.Base Lib.Utf8 Model.Csv Proofs.CsvBase Proofs.CsvFuel
   Proofs.CsvAccount Proofs.CsvRoundtrip Proofs.CsvChunks.
 From Coq Require Import ZifyBool.
@@ -725,35 +725,46 @@ Qed.
 Lemma zdrop_suffix (p d : bytes) : zdrop (zlen p) (p ++ d) = d.
 Proof. apply zdrop_app_len. Qed.
 
-(* the whole-input reader produces the fields of the specification machine *)
-Lemma read_all_rfc : forall f s data, nobom s data -> (length data < f)%nat ->
-  map ev_fields (read_all f c s data) = run RL0 (L (sc data)).
+Lemma bdy_nobom s d : st_noBOM s = true -> bdy s d = d.
+Proof. intros H. unfold bdy, isbom. rewrite H. reflexivity. Qed.
+
+(* the whole-input reader produces the fields of the specification machine (which sees the
+   input without a leading BOM and without a final lone CR) *)
+Lemma read_all_rfc : forall f s data, (length data < f)%nat ->
+  map ev_fields (read_all f c s data) = run RL0 (L (sc (bdy s data))).
 Proof.
-  induction f as [|f IH]; intros s data Hb Hf; [lia|].
-  cbn [read_all]. rewrite scan_nobom by exact Hb. cbn [andb].
-  destruct (Z.eqb_spec (zlen data) 0) as [Z0|Z0].
-  { apply zlen_0_nil in Z0. subst data. reflexivity. }
-  pose proof (skip_sim (S (length data)) data 0 0) as Hsk.
-  destruct (skip_lines c true (S (length data)) data 0 0) as [| |line d2 adv skip] eqn:Sk.
+  induction f as [|f IH]; intros s data Hf; [lia|].
+  cbn [read_all]. rewrite scan_unfold. cbn [andb].
+  pose proof (bdy_len s data) as [HBA HA]. pose proof (bdy_split s data) as Hsplit.
+  set (B := bdy s data) in *. set (A := a0 s data) in *.
+  set (pre := if isbom s data then bom else []) in *.
+  assert (Hpre : zlen pre = A) by (unfold pre, A, a0; destruct (isbom s data); reflexivity).
+  destruct (Z.eqb_spec (zlen B) 0) as [Z0|Z0].
+  { apply zlen_0_nil in Z0. rewrite Z0. reflexivity. }
+  pose proof (skip_sim (S (length B)) B A A) as Hsk.
+  destruct (skip_lines c true (S (length B)) B A A) as [| |line d2 adv skip] eqn:Sk.
   - cbn [map]. symmetry. exact Hsk.
   - exfalso. eapply skip_enough; [|exact Sk]. lia.
   - destruct Hsk as (Hl & Hrun).
     pose proof (skip_line_nonempty _ _ _ _ _ _ _ _ _ _ Sk) as Hlne.
     pose proof (skip_acct c true _ _ _ _ _ _ _ _ Sk) as ([p2 Hp2] & Sa & S1 & S2).
     pose proof (skip_lines_size _ _ _ _ _ _ _ _ _ _ Sk) as Hsz.
-    destruct (parse_field c true (S (length data)) line d2 adv [] false) as [|adv' fields cr|] eqn:P.
+    destruct (parse_field c true (S (length B)) line d2 adv [] false) as [|adv' fields cr|] eqn:P.
     + exfalso. eapply (proj1 (parse_true_no_need _)). exact P.
     + destruct (proj1 (parse_sim _) _ _ _ _ _ _ _ _ Hl P) as (dF & [p Hp] & Ha & Hr).
-      assert (Hd : data = (p2 ++ p) ++ dF) by (rewrite Hp2, Hp, <- app_assoc; reflexivity).
-      assert (Hzd : zlen data = zlen (p2 ++ p) + zlen dF) by (rewrite Hd at 1; apply zlen_app).
+      assert (Hd : data = (pre ++ p2 ++ p) ++ dF) by (rewrite Hsplit, Hp2, Hp, <- !app_assoc; reflexivity).
+      assert (Hzd : zlen data = zlen (pre ++ p2 ++ p) + zlen dF) by (rewrite Hd at 1; apply zlen_app).
+      assert (Hzb : zlen B = zlen (p2 ++ p) + zlen dF) by (rewrite Hp2, Hp, app_assoc; apply zlen_app).
       assert (Hzd2 : zlen d2 = zlen p + zlen dF) by (rewrite Hp at 1; apply zlen_app).
-      assert (Hadv : adv' = zlen (p2 ++ p)) by lia.
+      assert (Hzpp : zlen (pre ++ p2 ++ p) = A + zlen (p2 ++ p)) by (rewrite zlen_app; lia).
+      assert (Hadv : adv' = zlen (pre ++ p2 ++ p)) by lia.
       pose proof (zlen_nonneg p) as Hpp. pose proof (zlen_nonneg p2) as Hpp2. pose proof (zlen_nonneg dF) as HdF.
-      assert (Hpos : 1 <= zlen (p2 ++ p)) by lia.
+      pose proof (zlen_nonneg (p2 ++ p)) as Hpp3.
+      assert (Hpos : 1 <= zlen (pre ++ p2 ++ p)) by lia.
       assert (Hnext : forall s', st_noBOM s' = true ->
                 map ev_fields (read_all f c s' (zdrop adv' data)) = run RL0 (L (sc dF))).
-      { intros s' Hs'. rewrite Hadv. rewrite Hd at 1. rewrite zdrop_suffix. apply IH.
-        - left. exact Hs'.
+      { intros s' Hs'. rewrite Hadv. rewrite Hd at 1. rewrite zdrop_suffix. rewrite IH.
+        - rewrite bdy_nobom by exact Hs'. reflexivity.
         - rewrite Hd in Hf. rewrite app_length in Hf. unfold zlen in Hpos. lia. }
       rewrite Hrun, Hr.
       destruct ((st_row s =? 0) && c_header c).
@@ -769,10 +780,9 @@ End Ascii.
 Theorem reader_is_rfc c data :
   valid_sep (c_sep c) -> c_sep c < 128 ->
   (c_comment c = 0 \/ (valid_sep (c_comment c) /\ c_comment c < 128)) -> c_sep c <> c_comment c ->
-  prefix_of bom data = false ->
   map ev_fields (read_file c data) = rfc_parse (c_sep c) (c_comment c) data.
 Proof.
-  intros Hv H128 Hc Hne Hb. unfold read_file.
-  rewrite (read_all_rfc c Hv H128 Hc Hne) by (auto; right; exact Hb).
-  unfold rfc_parse, rfc_records. rewrite Hb. rewrite run3_ok. reflexivity.
+  intros Hv H128 Hc Hne. unfold read_file.
+  rewrite (read_all_rfc c Hv H128 Hc Hne) by lia.
+  unfold rfc_parse, rfc_records. rewrite run3_ok. reflexivity.
 Qed.
